@@ -6,6 +6,8 @@ use std::net::{IpAddr, Ipv4Addr, Ipv6Addr, SocketAddr};
 
 use crate::common::*;
 
+#[path = "c16/mux.rs"]
+mod mux;
 #[path = "c16/udp.rs"]
 mod udp;
 #[path = "c16/vtime.rs"]
@@ -13,10 +15,97 @@ mod vtime;
 
 use udp::{Ev, UdpCase, Q};
 
-pub fn exec(line: &str, rec: &mut Recorder) {
+/// state threaded through the lines of a multiplexer block
+#[derive(Default)]
+pub struct Ctx {
+    mux: Option<mux::MuxRun>,
+    begin_idx: usize,
+    ops: usize,
+}
+
+pub fn exec(ctx: &mut Ctx, line: &str, rec: &mut Recorder) {
     let t: Vec<&str> = line.split_whitespace().collect();
     match t.first().copied() {
         Some("udp") => exec_udp(line, &t, rec),
+        Some("idfill") => {
+            let Some(n) = t.get(1).and_then(|x| x.parse::<usize>().ok()) else {
+                rec.stat("skipped.unparsable-case");
+                return;
+            };
+            let r = catch(|| mux::id_fill(n.min(65_536), rec));
+            rec.impl_only += 1;
+            match r {
+                Ok((out, fails)) => {
+                    let idx = rec.case(line.to_string(), out);
+                    rec.stat("op.idfill");
+                    if fails.is_empty() {
+                        rec.nontrivial(idx);
+                    }
+                    for f in fails {
+                        rec.fail(idx, f, "");
+                    }
+                }
+                Err(p) => {
+                    let idx = rec.case(line.to_string(), "~".into());
+                    rec.fail(idx, format!("panic: {p}"), "");
+                }
+            }
+        }
+        Some("begin") => {
+            if let ["begin", "mux", tmo, m, st, ..] = t.as_slice() {
+                if let (Ok(tmo), Ok(m), Some(st)) = (tmo.parse::<u64>(), m.parse::<usize>(), match *st { "0" => Some(false), "1" => Some(true), _ => None }) {
+                    ctx.mux = Some(mux::MuxRun::new(tmo, m, st));
+                    ctx.begin_idx = rec.case(line.to_string(), "ok".into());
+                    ctx.ops = 0;
+                    rec.stat("op.mux.begin");
+                    rec.stat(&format!("mux.block.stalled.{}", b(st)));
+                    return;
+                }
+            }
+            rec.stat("skipped.unparsable-case");
+        }
+        Some("end") => {
+            let Some(mut m) = ctx.mux.take() else {
+                rec.stat("skipped.unparsable-case");
+                return;
+            };
+            let so = m.finish();
+            let out = if m.id_reused { rec.impl_only += 1; "~".to_string() } else { so.out };
+            let idx = rec.case(line.to_string(), out);
+            for f in so.fails {
+                rec.fail(idx, f, "");
+            }
+            rec.stat("op.mux.end");
+            rec.stat(&format!("mux.block.max-concurrent.{}", m.max_concurrent.min(9)));
+            if m.id_reused {
+                rec.stat("mux.block.id-reused(model side dropped)");
+            }
+            let got: usize = m.callers.iter().map(|c| c.got).sum();
+            // non-trivial block: at least two requests in flight together and a response reached a caller
+            if m.max_concurrent >= 2 && got >= 1 {
+                rec.nontrivial(ctx.begin_idx);
+            }
+        }
+        Some(_) if ctx.mux.is_some() => {
+            let m = ctx.mux.as_mut().unwrap();
+            match m.step(&t) {
+                None => rec.stat("skipped.unparsable-case"),
+                Some(so) => {
+                    let out = if m.id_reused { rec.impl_only += 1; "~".to_string() } else { so.out.clone() };
+                    let idx = rec.case(line.to_string(), out);
+                    ctx.ops += 1;
+                    rec.stat(&format!("op.mux.{}", t[0]));
+                    let kind = so.out.split(' ').next().unwrap_or("");
+                    rec.stat(&format!("mux.{}.{}", t[0], kind));
+                    if t[0] == "deliver" {
+                        rec.stat(&format!("mux.deliver.kind.{}", &t[1][..1]));
+                    }
+                    for f in so.fails {
+                        rec.fail(idx, f, "");
+                    }
+                }
+            }
+        }
         _ => rec.stat("skipped.unparsable-case"),
     }
 }
@@ -369,11 +458,185 @@ fn gen_udp(r: &mut Rng) -> UdpCase {
     c
 }
 
-pub fn run(o: &Opts, rec: &mut Recorder) {
-    rec.rule = "UDP: scripted arrival lists (genuine reply + forged datagrams of 17 kinds: wrong ip/port/id/name/type/class, extra/duplicate/missing question, case flip, garbage, truncation, QR=0, recv error, v4-mapped alias) per transmission, with delays, with and without case randomisation; a case is non-trivial when a non-matching datagram was examined or a reply was accepted after at least one other datagram; distinct by case line".into();
-    for l in o.pre_lines.clone() {
-        exec(&l, rec);
+// ---- multiplexer generator (online: the next op is chosen looking at what exists so far)
+
+fn mux_block(r: &mut Rng, ctx: &mut Ctx, rec: &mut Recorder, serial: usize) {
+    let scenario = r.below(10);
+    let timeout = *r.pick(&[1000u64, 1000, 300, 5000]);
+    let (max_active, stalled) = match scenario {
+        0 => (r.range(1, 3) as usize, false), // Busy
+        1 => (r.range(34, 40) as usize, true), // stalled writer: the outbound buffer fills
+        _ => (32, false),
+    };
+    exec(ctx, &format!("begin mux {timeout} {max_active} {} #{serial}", b(stalled)), rec);
+    let mut next_k = 0usize;
+    let mut send = |ctx: &mut Ctx, rec: &mut Recorder, next_k: &mut usize| {
+        exec(ctx, &format!("send {}", *next_k), rec);
+        *next_k += 1;
+    };
+    match scenario {
+        1 => {
+            // stalled: sends, cancels and polls only
+            let n = r.range(30, 45);
+            for _ in 0..n {
+                match r.below(6) {
+                    0..=2 => send(ctx, rec, &mut next_k),
+                    3 if next_k > 0 => exec(ctx, &format!("cancel {}", r.below(next_k as u64)), rec),
+                    4 => exec(ctx, "poll", rec),
+                    _ => {
+                        if next_k > 0 {
+                            exec(ctx, &format!("cancel {}", next_k - 1), rec);
+                        }
+                        exec(ctx, "poll", rec);
+                        send(ctx, rec, &mut next_k);
+                    }
+                }
+            }
+            if next_k > 0 {
+                exec(ctx, &format!("deliver r{} 1", r.below(next_k as u64)), rec);
+            }
+        }
+        2 | 3 => {
+            // k concurrent requests, responses in a random order, some twice, some never, strangers in between
+            let k = r.range(2, 8) as usize;
+            for _ in 0..k {
+                send(ctx, rec, &mut next_k);
+                if r.chance(1, 4) {
+                    exec(ctx, "poll", rec);
+                }
+            }
+            let mut order: Vec<usize> = (0..k).collect();
+            for i in (1..k).rev() {
+                order.swap(i, r.below(i as u64 + 1) as usize);
+            }
+            for &j in &order {
+                match r.below(8) {
+                    0 => {} // never answered
+                    1 => exec(ctx, &format!("deliver r{j} 2"), rec),
+                    2 => {
+                        exec(ctx, "deliver u 1", rec);
+                        exec(ctx, &format!("deliver r{j} 1"), rec);
+                    }
+                    3 => {
+                        exec(ctx, &format!("deliver q{j} 1"), rec);
+                        exec(ctx, &format!("deliver r{j} 1"), rec);
+                    }
+                    _ => exec(ctx, &format!("deliver r{j} 1"), rec),
+                }
+                if r.chance(1, 3) {
+                    exec(ctx, "poll", rec);
+                }
+                if r.chance(1, 5) {
+                    exec(ctx, &format!("recv {}", r.below(k as u64)), rec);
+                }
+            }
+            exec(ctx, "poll", rec);
+            if r.chance(1, 3) {
+                exec(ctx, &format!("advance {}", timeout + 1), rec);
+                exec(ctx, "poll", rec);
+            }
+            if r.chance(1, 4) {
+                exec(ctx, if r.chance(1, 2) { "deliver c 1" } else { "deliver e 1" }, rec);
+                exec(ctx, "poll", rec);
+            }
+        }
+        4 => {
+            // flood: the QoS bound
+            let k = r.range(1, 3) as usize;
+            for _ in 0..k {
+                send(ctx, rec, &mut next_k);
+            }
+            let total = *r.pick(&[99u64, 100, 101, 150, 199, 200, 201, 250]);
+            let mut left = total;
+            while left > 0 {
+                let n = r.range(1, left.min(120));
+                let kind = match r.below(4) {
+                    0 => "u".to_string(),
+                    1 => "g".to_string(),
+                    _ => format!("r{}", r.below(k as u64)),
+                };
+                exec(ctx, &format!("deliver {kind} {n}"), rec);
+                left -= n;
+            }
+            for _ in 0..r.range(1, 4) {
+                exec(ctx, "poll", rec);
+                if r.chance(1, 2) {
+                    exec(ctx, &format!("recv {}", r.below(k as u64)), rec);
+                }
+            }
+        }
+        _ => {
+            let n = r.range(8, 40);
+            for _ in 0..n {
+                let have = next_k > 0;
+                let any = |r: &mut Rng| r.below(next_k.max(1) as u64);
+                match r.below(100) {
+                    0..=24 => send(ctx, rec, &mut next_k),
+                    25..=49 if have => {
+                        let cnt = match r.below(12) {
+                            0 => r.range(2, 4),
+                            1 => r.range(8, 12), // overflow the caller's buffer
+                            _ => 1,
+                        };
+                        exec(ctx, &format!("deliver r{} {cnt}", any(r)), rec)
+                    }
+                    50..=53 => exec(ctx, &format!("deliver u {}", r.range(1, 2)), rec),
+                    54..=55 => exec(ctx, "deliver g 1", rec),
+                    56..=58 if have => exec(ctx, &format!("deliver q{} 1", any(r)), rec),
+                    59..=76 => exec(ctx, "poll", rec),
+                    77..=88 if have => exec(ctx, &format!("recv {}", any(r)), rec),
+                    89..=92 if have => exec(ctx, &format!("cancel {}", any(r)), rec),
+                    93..=96 => {
+                        let dt = *r.pick(&[timeout / 3, timeout / 2 + 1, timeout, 1]);
+                        exec(ctx, &format!("advance {dt}"), rec)
+                    }
+                    97 => exec(ctx, if r.chance(1, 2) { "deliver c 1" } else { "deliver e 1" }, rec),
+                    98 => exec(ctx, "shutdown", rec),
+                    _ => exec(ctx, "poll", rec),
+                }
+            }
+        }
     }
+    exec(ctx, "end", rec);
+}
+
+/// every delivery sequence of length <= `len` over {r0, …, r(k-1), u} for k concurrent requests,
+/// polled after each delivery (`each`) or once at the end
+fn mux_enumerate(ctx: &mut Ctx, rec: &mut Recorder, k: usize, len: usize, serial: &mut usize) {
+    let alphabet = k + 1;
+    for l in 0..=len {
+        let total = alphabet.pow(l as u32);
+        for code in 0..total {
+            for each in [false, true] {
+                *serial += 1;
+                exec(ctx, &format!("begin mux 1000 32 0 #e{serial}"), rec);
+                for j in 0..k {
+                    exec(ctx, &format!("send {j}"), rec);
+                }
+                let mut c = code;
+                for _ in 0..l {
+                    let x = c % alphabet;
+                    c /= alphabet;
+                    let line = if x == k { "deliver u 1".to_string() } else { format!("deliver r{x} 1") };
+                    exec(ctx, &line, rec);
+                    if each {
+                        exec(ctx, "poll", rec);
+                    }
+                }
+                exec(ctx, "poll", rec);
+                exec(ctx, "end", rec);
+            }
+        }
+    }
+}
+
+pub fn run(o: &Opts, rec: &mut Recorder) {
+    rec.rule = "UDP lines: scripted arrival lists (genuine reply + forged datagrams of 17 kinds: wrong ip/port/id/name/type/class, extra/duplicate/missing question, case flip, garbage, truncation, QR=0, recv error, v4-mapped alias) per transmission, with delays, with and without case randomisation; a case is non-trivial when a non-matching datagram was examined or a reply was accepted after at least one other datagram; distinct by case line. Multiplexer blocks (begin…end): k concurrent requests on a scripted stream, responses in any order / duplicated / never / unknown id / undecodable / QR=0, cancels, timeouts in virtual time, close, shutdown, floods of 99-250 frames, stalled writer; a block is non-trivial when at least two requests were in flight together and a response reached a caller; distinct by block serial".into();
+    let mut ctx = Ctx::default();
+    for l in o.pre_lines.clone() {
+        exec(&mut ctx, &l, rec);
+    }
+    ctx.mux = None;
     rec.corpus_cases = rec.cases.len();
     if o.replay_only {
         return;
@@ -382,6 +645,17 @@ pub fn run(o: &Opts, rec: &mut Recorder) {
     let n = o.n(4000, 150_000);
     for _ in 0..n {
         let c = gen_udp(&mut r);
-        exec(&udp::case_line(&c), rec);
+        exec(&mut ctx, &udp::case_line(&c), rec);
+    }
+    let mut serial = 0usize;
+    if o.thorough() {
+        mux_enumerate(&mut ctx, rec, 2, 6, &mut serial);
+        mux_enumerate(&mut ctx, rec, 3, 5, &mut serial);
+    } else {
+        mux_enumerate(&mut ctx, rec, 3, 3, &mut serial);
+    }
+    let nb = o.n(600, 20_000);
+    for i in 0..nb {
+        mux_block(&mut r, &mut ctx, rec, i);
     }
 }
